@@ -21,7 +21,11 @@ func NewIndex(starts, ends []int) *Index {
 	}
 	events := make([]event, 0, len(starts)+len(ends))
 	for i := range starts {
-		// TODO(amit): Check that start<end
+		if starts[i] >= ends[i] {
+			// An empty interval covers no position. Its end event would be
+			// sorted before its start event and never remove it.
+			continue
+		}
 		events = append(events, event{i, starts[i], true})
 		events = append(events, event{i, ends[i], false})
 	}
